@@ -456,6 +456,72 @@ def c06_type_queries(res):
                 _ok(res, sig)
 
 
+def c06_after_caught_failure(res):
+    """Primal values handed back by an enclosing differentiation whose function caught a failing inner
+    differentiation: still the plain value, still no tracer."""
+    import autograd.numpy as anp
+    from autograd import grad, value_and_grad
+    from autograd.core import make_jvp, make_vjp
+
+    x = onp.array([0.4, -0.9, 1.3])
+
+    def failing_inner(kind, t):
+        if kind == "user_raise":
+            return grad(lambda z: (_ for _ in ()).throw(ValueError("boom")))(1.0)
+        if kind == "linalg":
+            return grad(lambda z: anp.sum(anp.linalg.cholesky(anp.array([[z, 2.0], [2.0, -1.0]]))))(1.0)
+        if kind == "norule":
+            return grad(lambda z: anp.sum(anp.cumprod(anp.array([z, z]))))(1.0)
+        if kind == "nonscalar":
+            return grad(lambda z: anp.array([z, z]))(1.0)
+        if kind == "fwd_raise":
+            return make_jvp(lambda z: z * {}["k"], 1.0)(1.0)
+        return grad(lambda z: z * t[5])(1.0)  # IndexError on the traced outer value
+
+    for kind in ("user_raise", "linalg", "norule", "nonscalar", "fwd_raise", "outer_index"):
+        for op in ("make_vjp", "make_jvp", "value_and_grad", "vjp_of_jvp", "depth2"):
+            res["evaluations"] += 1
+            sig = {"engine": "values", "family": "after_caught_failure", "failure": kind, "op": op}
+            case = {"kind": "after_caught_failure", "failure": kind, "op": op}
+
+            def f(t):
+                try:
+                    failing_inner(kind, t)
+                except Exception:
+                    pass
+                return anp.sum(anp.sin(t) * t)
+
+            plain = float(onp.sum(onp.sin(x) * x))
+            gref = onp.cos(x) * x + onp.sin(x)
+            try:
+                with warnings.catch_warnings():
+                    warnings.simplefilter("ignore")
+                    if op == "make_vjp":
+                        vj, val = make_vjp(f, x)
+                        der = vj(1.0)
+                    elif op == "make_jvp":
+                        val, t_ = make_jvp(f, x)(onp.ones(3))
+                        der = None if abs(float(t_) - float(onp.sum(gref))) < 1e-12 else "bad"
+                    elif op == "value_and_grad":
+                        val, der = value_and_grad(f)(x)
+                    elif op == "vjp_of_jvp":
+                        vj, val = make_vjp(lambda t: make_jvp(f, t)(onp.ones(3))[0], x)
+                        der = vj(1.0)
+                    else:
+                        val = make_vjp(lambda t: make_vjp(f, t)[1], x)[1]
+                        der = grad(lambda t: grad(f)(t)[0] + f(t))(x) * 0 + gref
+            except Exception as e:
+                _viol(res, sig, "exception:" + type(e).__name__, case, traceback.format_exc()[-300:])
+                continue
+            if find_boxes(val) or find_boxes(der):
+                _viol(res, sig, "tracer_leak", case, "value handed back after a caught inner failure is a tracer: %r" % (val,))
+                continue
+            if float(val) != plain or (der is not None and (isinstance(der, str) or not onp.allclose(der, gref, rtol=1e-13, atol=1e-13))):
+                _viol(res, sig, "primal_mismatch", case, "value %r (plain %r), derivative %r (expected %r)" % (val, plain, der, gref))
+                continue
+            _ok(res, sig)
+
+
 # ================================================================ C14
 
 
@@ -877,6 +943,8 @@ def run_shard(pid, tier, seed, idx, n):
                     res["sets"].setdefault("harness_errors", set()).add(traceback.format_exc()[-400:])
         if idx == 0:
             c06_type_queries(res)
+        if idx == 1 % n:
+            c06_after_caught_failure(res)
     else:
         rng = onp.random.Generator(onp.random.PCG64([seed, idx, 67]))
         # the C14 workload is small and deterministic: shard by family
@@ -922,6 +990,9 @@ def replay(pid, case):
             _viol(res, sig, "primal_mismatch", case, "%r vs %r" % (y1, y0))
         else:
             _ok(res, sig)
+    elif k == "after_caught_failure":
+        c06_after_caught_failure(res)
+        res["violations"] = [v for v in res["violations"] if v["case"] == case]
     elif k == "typequery":
         c06_type_queries(res)
         res["violations"] = [v for v in res["violations"] if v["case"].get("value") == case["value"] and v["case"].get("mode") == case["mode"]]
